@@ -87,7 +87,7 @@ class GoalGen:
             feats.add("throw")
             v = self.var()
             ball = rng.choice(["oops", "ball(1)", "error(type_error(integer, a), ctx)"])
-            trig = rng.choice(["throw(%s)" % ball, "atom_length(1, _)", "_ is foo + 1", "arg(x, f(a), _)"])
+            trig = rng.choice(["throw(%s)" % ball, "atom_length(1, _)", "( Z0 = foo, _ is Z0 + 1 )", "arg(x, f(a), _)"])
             n = rng.randint(1, 3)
             return "( member(%s, [1,2,3]) , ( %s == %d -> %s ; true ) )" % (v, v, n, trig)
         if r < 0.93:
@@ -109,6 +109,9 @@ def parse_rows(t):
     """list of X-R  ->  list of (X normalised, kind, ball)  kind in true/!/exceeded/caught"""
     out = []
     for e in terms.list_view(t)[0]:
+        if not (e[0] == "cmp" and e[1] == "-" and len(e[2]) == 2):
+            out.append((norm(e), "leak", None))
+            continue
         x, r = e[2][0], e[2][1]
         if r == ("atom", "true"): out.append((norm(x), "true", None))
         elif r == ("atom", "!"): out.append((norm(x), "!", None))
@@ -133,8 +136,8 @@ def coq_outcomes(row, F):
 def run(ctx):
     rng = ctx.rng
     failures, tie_breaks = [], []
-    LMAX = 230
-    njobs = ctx.scale(60, 900)
+    LMAX = 200
+    njobs = ctx.scale(36, 700)
     per_job = 8
     jobs, meta = [], {}
     for j in range(njobs):
@@ -179,7 +182,10 @@ def run(ctx):
         jid = "J%d" % j
         jobs.append({"id": jid, "consult": text, "queries": qs, "max_answers": 2, "timeout_ms": 20000})
         meta[jid] = (p, text, goals, qs)
+    import time
+    t0 = time.time()
     obs = core.vrun_query(ctx.prop, jobs, tag="impl")
+    core.log("C40: implementation sweeps %.1fs" % (time.time() - t0))
 
     def binding(res, var):
         if not res or not isinstance(res[0], dict) or "b" not in res[0]: return None
@@ -222,6 +228,12 @@ def run(ctx):
             rows2 = [parse_rows(r[2][1]) for r in terms.list_view(a2)[0]]
             F = parse_rows(fb)
             evaluations += len(rows1)
+            leak = [(L, row) for L, row in enumerate(rows1) if any(k == "leak" for x, k, b in row)]
+            if leak:
+                L, row = leak[0]
+                fail("cwil:findall-leak-on-limit", "when the limit is exceeded inside a findall/3 within G, the partial results of that findall are left behind and appear in the enclosing findall/3",
+                     text + "?- %sout(%s(X), X, %d, Os)." % (p, name, L), repr(row)[:600], "Os = [_-inference_limit_exceeded] preceded by the solutions X-R only")
+                continue
             if rows1 != rows2:
                 L = next(i for i in range(len(rows1)) if rows1[i] != rows2[i])
                 fail("cwil:nondeterministic", "two identical runs of call_with_inference_limit(G, L, R) gave different answers", inp + "  (L = %d)" % L, repr(rows1[L]), repr(rows2[L]))
@@ -315,13 +327,15 @@ def run(ctx):
             exprs.append("outcomes_eqb (run true %d %s %s) %s" % (lim, bsols, bend, coq_outcomes(inner, bF)))
             info.append((jid, gi, "nested", (lim, bsols, bend)))
             # the enclosing count advances inside: no solution prefix of the nested goal is cheaper than for the inner goal alone
-            for kk in range(min(len(t), len(bt))):
+            for kk in range(min(len(t), len(bt)) if kind[0] == "generous" else 0):
                 if t[kk] < bt[kk]:
                     fail("cwil:nested-threshold-lower", "a solution is reached under a smaller outer limit when the goal is wrapped in a nested call_with_inference_limit: inner inferences are not counted by the outer limit",
                          inp, "nested thresholds %s" % t, "plain thresholds %s" % bt)
                     break
 
+    t0 = time.time()
     bad, errs = core.coq_eval_bools(ctx.prop, IMPORTS, exprs, chunk=ctx.scale(40, 80), tag="cases")
+    core.log("C40: coq evaluation of %d expressions %.1fs" % (len(exprs), time.time() - t0))
     for k, e in errs:
         tie_breaks.append({"kind": "coq-eval", "what": "model evaluation shard failed", "detail": str(e)[-1500:]})
     badset = set(bad)
@@ -335,12 +349,12 @@ def run(ctx):
             if shown < 4:
                 shown += 1
                 if what == "table":
-                    spec = core.coq_eval_show(ctx.prop, IMPORTS, "map (fun L => (L, run true L %s %s)) [0;1;2;3;5;8;13;21;34;55;89;144;230]" % x)
+                    spec = core.coq_eval_show(ctx.prop, IMPORTS, "map (fun L => (L, run true L %s %s)) [0;1;2;3;5;8;13;21;34;55;89;144;200]" % x)
                 else:
                     spec = core.coq_eval_show(ctx.prop, IMPORTS, "run true %d %s %s" % x)
                 spec = spec[:900]
             if what == "table":
-                fail("cwil:table-not-threshold-structured", "the answers over all limits 0..%d are not those of any cost profile: not a monotone prefix structure / wrong R values" % 230,
+                fail("cwil:table-not-threshold-structured", "the answers over all limits 0..%d are not those of any cost profile: not a monotone prefix structure / wrong R values" % LMAX,
                      text + "?- " + qs[4 * gi], exprs[idx][:900], spec)
             else:
                 fail("cwil:nested-inner-outcome-differs", "the answers of a nested call_with_inference_limit(G, %d, R1) under a generous outer limit differ from those of G alone at limit %d" % (x[0], x[0]),
@@ -358,8 +372,8 @@ def run(ctx):
     return {"evaluations": evaluations, "distinct_nontrivial": len(nontrivial),
             "rule": ("goals built from member/between/count-downs (with and without a remaining choice point)/length/append/unification combined by "
                      "conjunction, disjunction, failure, throw (user balls and type/evaluation errors), if-then-else, once, \\+, findall, defined as predicates; plus "
-                     "nested call_with_inference_limit wrappers of them with a generous or a tight inner limit; each goal is run at every limit 0..230 twice, at 10^6 "
+                     "nested call_with_inference_limit wrappers of them with a generous or a tight inner limit; each goal is run at every limit 0..200 twice, at 10^6 "
                      "and by call/1; evaluations = (goal, limit) runs compared + nested comparisons; non-trivial = distinct goals whose complete table is reproduced "
                      "by the fitted model in Coq + nested goals whose inner answers equal the model of the inner goal at the inner limit; goals needing more than "
-                     "230 inferences are dropped (counted)"),
+                     "200 inferences are dropped (counted)"),
             "samples": samples, "distribution": dist, "failures": failures, "tie_breaks": tie_breaks}
